@@ -230,18 +230,21 @@ func C06OtherConn() {
 	sym.Quiesce()
 	b.inject(zzFrame(net.Call, 1, 1, 0, 101, nil))
 	sym.Quiesce()
-	sym.Assert(probe.count() == 1, "legitimate-connection-not-served")
+	// (whether B got served is not this property's business: an authenticator may time out)
+	base := probe.count()
 	a := l.connect()
 	typ := sym.U8("type")
 	sym.Assume(typ >= 1)
 	sym.Assume(typ <= 8)
 	a.inject(zzFrame(typ, sym.U32("service"), sym.U32("object"), sym.U32("action"), sym.U32("id"), sym.Bytes("raw", sym.Choose("rawlen", 3))))
 	sym.Quiesce()
-	sym.Assert(probe.count() == 1, "other-connection-authentication-leaked")
+	sym.Assert(probe.count() == base, "other-connection-authentication-leaked")
 	// and B still works
 	b.inject(zzFrame(net.Call, 1, 1, 0, 102, nil))
 	sym.Quiesce()
-	sym.Assert(probe.count() == 2, "legitimate-connection-disturbed")
+	if base == 1 {
+		sym.Assert(probe.count() == 2, "legitimate-connection-disturbed")
+	}
 	sym.Reach("other-conn-done")
 }
 
@@ -260,12 +263,18 @@ func C06Sequence() {
 	typ1 := sym.U8("type1")
 	sym.Assume(typ1 >= 1)
 	sym.Assume(typ1 <= 8)
-	a.inject(zzFrame(typ1, 0, sym.U32("object1"), 8, 1, zzCapPayload(m)))
+	id1 := sym.U32("id1")
+	a.inject(zzFrame(typ1, 0, sym.U32("object1"), 8, id1, zzCapPayload(m)))
 	sym.Quiesce()
 	typ2 := sym.U8("type2")
 	sym.Assume(typ2 >= 1)
 	sym.Assume(typ2 <= 8)
-	a.inject(zzFrame(typ2, 1, sym.U32("object2"), sym.U32("action2"), 2, nil))
+	// the second frame may carry the same id as the first (e.g. a cancel aimed at it)
+	id2 := id1
+	if sym.Bool("second-frame-has-another-id") {
+		id2 = sym.U32("id2")
+	}
+	a.inject(zzFrame(typ2, 1, sym.U32("object2"), sym.U32("action2"), id2, nil))
 	sym.Quiesce()
 	sym.Assert(probe.count() == 0, "unauthenticated-message-reached-service")
 	sym.Reach("sequence-done")
@@ -289,7 +298,7 @@ func C06History() {
 	sym.Quiesce()
 	b.inject(zzFrame(net.Call, 1, 1, 0, 101, nil))
 	sym.Quiesce()
-	sym.Assert(probe.count() == 1, "legitimate-connection-not-served")
+	base := probe.count() // (whether B got served is not this property's business)
 	if sym.Bool("first-connection-goes-away") {
 		b.peerClose()
 		sym.Quiesce()
@@ -305,7 +314,7 @@ func C06History() {
 	}
 	a.inject(zzFrame(net.Call, 1, 1, 0, 6, nil))
 	sym.Quiesce()
-	sym.Assert(probe.count() == 1, "earlier-connection-authentication-leaked")
+	sym.Assert(probe.count() == base, "earlier-connection-authentication-leaked")
 	sym.Reach("history-done")
 }
 
